@@ -19,10 +19,15 @@ type Features struct {
 	NumericCaprefs, RedundantParens                     bool
 	FloatKeys, MetricReads, StringConcat                bool
 	PinTypes                                            bool // every metric gets a write with an operand of concrete type
-	NoRecursiveDecorators                               bool // a decorator is not used inside its own decorated block
-	OnePatternPerCond                                   bool // at most one pattern (line pattern or match operator) per condition
-	NoMixedMetricReads                                  bool // no metric reads inside mixed Int/Float arithmetic or comparisons
-	MaxStmts, MaxDepth, MaxExprDepth                    int
+	// constructs the reference does not define (used by C04/C23 only, never with R)
+	MixedWrites, StringNumberCompare, NonBoolCond, Unary bool
+	NoUnaryOnBool                                        bool // with Unary: ~ only on Int operands
+	NoFloatIntoInt                                       bool // with MixedWrites: only Int values into Float metrics
+	TimeBuiltins                                         bool
+	NoRecursiveDecorators                                bool // a decorator is not used inside its own decorated block
+	OnePatternPerCond                                    bool // at most one pattern (line pattern or match operator) per condition
+	NoMixedMetricReads                                   bool // no metric reads inside mixed Int/Float arithmetic or comparisons
+	MaxStmts, MaxDepth, MaxExprDepth                     int
 }
 
 // AllFeatures is the C01 feature set.
@@ -399,6 +404,10 @@ func (g *G) genInt(d int) *Expr {
 }
 
 func (g *G) intLeaf(d int) *Expr {
+	if g.F.TimeBuiltins && g.chance("timestamp", 6) {
+		g.class("builtin-timestamp")
+		return &Expr{Op: "call", Ty: TInt, Name: "timestamp"}
+	}
 	switch g.intn("ileaf", 6) {
 	case 0, 1:
 		if cs := g.capsOf(TInt); len(cs) > 0 {
@@ -535,6 +544,13 @@ func (g *G) genString(d int) *Expr {
 func (g *G) genCmp(d int) *Expr {
 	op := pick(g, "cmp", []string{"<", "<=", ">", ">=", "==", "!="})
 	var l, r *Expr
+	if g.F.StringNumberCompare && g.chance("strnum", 12) {
+		g.class("string-number-compare")
+		if g.chance("strleft", 50) {
+			return &Expr{Op: "bin", Ty: TBool, Name: op, Args: []*Expr{g.genString(d + 1), g.genInt(d + 1)}}
+		}
+		return &Expr{Op: "bin", Ty: TBool, Name: op, Args: []*Expr{g.genFloat(d + 1), g.genString(d + 1)}}
+	}
 	switch g.intn("cmpkind", 6) {
 	case 0, 1, 2:
 		l, r = g.genInt(d+1), g.genInt(d+1)
@@ -560,6 +576,21 @@ func (g *G) genCmp(d int) *Expr {
 // genBool draws a condition expression. newCaps receives the pattern of a
 // match operator whose captures become visible in the block.
 func (g *G) genBool(d int, matchPat **Pattern) *Expr {
+	if g.F.NonBoolCond && d == 0 && g.chance("nonbool", 8) {
+		g.class("non-bool-condition")
+		if g.chance("nonboolstr", 30) {
+			return g.genString(1)
+		}
+		return g.genInt(1)
+	}
+	if g.F.Unary && d == 0 && g.chance("unary", 7) {
+		if g.F.NoUnaryOnBool || g.chance("unaryint", 50) {
+			g.class("unary-on-int")
+			return &Expr{Op: "unary", Ty: TBool, Name: "~", Args: []*Expr{g.genInt(2)}}
+		}
+		g.class("unary-on-bool")
+		return &Expr{Op: "unary", Ty: TBool, Name: "~", Args: []*Expr{{Op: "paren", Ty: TBool, Args: []*Expr{g.genCmp(1)}}}}
+	}
 	k := g.intn("boolkind", 10)
 	switch {
 	case k < 5 || d >= 2:
@@ -619,6 +650,15 @@ func (g *G) genWrite(m *Metric) *Stmt {
 	g.used[m.Name] = true
 	g.written[m.Name] = true
 	keys := g.genKeys(m, 1)
+	if g.F.MixedWrites && m.Ty != TString && g.chance("mixedwrite", 12) {
+		g.class("mixed-type-write")
+		if m.Ty == TInt && !g.F.NoFloatIntoInt {
+			return &Stmt{Op: "assign", Metric: m.Name, Keys: keys, E: g.genFloat(1)}
+		}
+		if m.Ty == TFloat {
+			return &Stmt{Op: pick(g, "mwop", []string{"assign", "addassign"}), Metric: m.Name, Keys: keys, E: g.genInt(1)}
+		}
+	}
 	switch m.Ty {
 	case TInt:
 		switch g.intn("iwrite", 6) {
@@ -705,6 +745,15 @@ func (g *G) genBlock(depth, n int, ctx blockCtx) []*Stmt {
 			}
 			g.class("del")
 			out = append(out, st)
+		case k == 17 && g.F.TimeBuiltins:
+			if g.chance("settime", 40) {
+				g.class("builtin-settime")
+				out = append(out, &Stmt{Op: "exprstmt", E: &Expr{Op: "call", Ty: TInt, Name: "settime", Args: []*Expr{g.genInt(1)}}})
+			} else {
+				g.class("builtin-strptime")
+				lay := pick(g, "layout", []string{"2006-01-02", "15:04:05", "Jan _2 15:04:05", "2006/01/02 15:04:05"})
+				out = append(out, &Stmt{Op: "exprstmt", E: &Expr{Op: "call", Ty: TInt, Name: "strptime", Args: []*Expr{g.genString(1), {Op: "lit", Ty: TString, S: lay}}}})
+			}
 		case k == 15 && g.F.Stop && g.chance("stop", 40):
 			g.class("stop")
 			out = append(out, &Stmt{Op: "stop"})
